@@ -20,8 +20,8 @@ EXTENDS Quantise, TLC, Json, IOUtils
 Trace == JsonDeserialize(IOEnv.TRACE_FILE)
 N == Len(Trace)
 
-VARIABLES l, fails
-vars == <<l, fails>>
+VARIABLES l, fails, drifts
+vars == <<l, fails, drifts>>
 
 Verdict(ev) ==
   LET E == ev[1]  M == ev[2]  kind == ev[3]  s == ev[4]  xs == ev[5]  x == ev[6]
@@ -31,7 +31,6 @@ Verdict(ev) ==
        ELSE IF ~Representable(E, M, a) THEN "representable"
        ELSE IF ~Saturates(E, M, x, a) THEN "saturates"
        ELSE IF ~Nearest(E, M, x, a) THEN "nearest"
-       ELSE IF QMag(E, M, OffNearest(M), x) # a THEN "model_step"
        ELSE "ok"
      ELSE IF kind = 3 THEN   \* API observation: xs,x,a,b = shape kept, dtype kept, argument unmodified, values float32-exact
        IF xs # 1 THEN "api_shape" ELSE IF x # 1 THEN "api_dtype" ELSE IF a # 1 THEN "api_argument_modified"
@@ -48,7 +47,6 @@ Verdict(ev) ==
        IF qs # xs THEN "sign"
        ELSE IF ~Representable(E, M, b) THEN "representable"
        ELSE IF ~Neighbour(E, M, x, b) THEN "neighbour"
-       ELSE IF QMag(E, M, OffStoch(M, s, a), x) # b THEN "model_step"
        ELSE "ok"
      ELSE
        LET eq == ExactQuot(E, Clip(E, M, x))  S == Pow2(HM - M)  lo == Lo(M, eq[1])
@@ -61,20 +59,31 @@ Verdict(ev) ==
        ELSE IF a < Pow2(s) /\ ~(bLo /\ cHi) THEN "step_direction"
        ELSE IF a = Pow2(s) /\ b # c THEN "harness_step_encoding"
        ELSE IF ~CountOK(E, M, s, x, cnt) THEN "proportional"
-       ELSE IF QMag(E, M, OffStoch(M, s, 0), x) # b THEN "model_step_first"
-       ELSE IF QMag(E, M, OffStoch(M, s, Pow2(s) - 1), x) # c THEN "model_step_last"
-       ELSE IF a > 0 /\ a < Pow2(s) /\ QMag(E, M, OffStoch(M, s, a - 1), x) # b THEN "model_step_below_rstar"
-       ELSE IF a > 0 /\ a < Pow2(s) /\ QMag(E, M, OffStoch(M, s, a), x) # c THEN "model_step_at_rstar"
        ELSE "ok"
 
-Init == l = 1 /\ fails = <<>>
+\* Does the event follow the ALGORITHM model step for step?  Not a verdict about
+\* the property (another algorithm may satisfy it, e.g. a different tie rule):
+\* a drift only means the L2 result about the modelled algorithm no longer
+\* transfers to the code, and is reported without failing the check.
+Drift(ev) ==
+  LET E == ev[1]  M == ev[2]  kind == ev[3]  s == ev[4]  x == ev[6]  a == ev[7]  b == ev[8]  c == ev[10]
+  IN IF kind = 0 THEN QMag(E, M, OffNearest(M), x) # a
+     ELSE IF kind = 1 THEN QMag(E, M, OffStoch(M, s, a), x) # b
+     ELSE IF kind = 2 THEN
+       \/ QMag(E, M, OffStoch(M, s, 0), x) # b
+       \/ QMag(E, M, OffStoch(M, s, Pow2(s) - 1), x) # c
+       \/ (a > 0 /\ a < Pow2(s) /\ (QMag(E, M, OffStoch(M, s, a - 1), x) # b \/ QMag(E, M, OffStoch(M, s, a), x) # c))
+     ELSE FALSE
+
+Init == l = 1 /\ fails = <<>> /\ drifts = <<>>
 Step == /\ l <= N
         /\ LET v == Verdict(Trace[l]) IN
              fails' = IF v = "ok" \/ Len(fails) >= 50 THEN fails ELSE Append(fails, <<l, v>>)
+        /\ drifts' = IF Len(drifts) < 20 /\ Drift(Trace[l]) THEN Append(drifts, <<l, "model_step">>) ELSE drifts
         /\ l' = l + 1
 Finish == /\ l = N + 1
-          /\ JsonSerialize(IOEnv.OUT_FILE, [fails |-> fails, n |-> N, ev |-> N])
-          /\ l' = N + 2 /\ UNCHANGED fails
+          /\ JsonSerialize(IOEnv.OUT_FILE, [fails |-> fails, drifts |-> drifts, n |-> N, ev |-> N])
+          /\ l' = N + 2 /\ UNCHANGED <<fails, drifts>>
 Next == Step \/ Finish
 Spec == Init /\ [][Next]_vars
 =============================================================================
